@@ -17,6 +17,8 @@ import (
 
 	"github.com/dave/dst"
 	"github.com/dave/dst/decorator"
+	"github.com/dave/dst/decorator/resolver/guess"
+	"github.com/dave/dst/decorator/resolver/goast"
 	"github.com/dave/dst/dstutil"
 )
 
@@ -179,6 +181,7 @@ func checkC04(c *Ctx) {
 	// one FileRestorer for several files, every file printed only after all have been restored: each
 	// file still renders exactly its own decorations (what a restore returns may not change afterwards)
 	c04Reuse(c, src, r0)
+	c04Imports(c)
 	// listing helper + accessor, once per node type that occurs
 	pts := &ndjson{}
 	seenType := map[string]bool{}
@@ -496,6 +499,66 @@ func c04Reuse(c *Ctx, src []byte, r *rand.Rand) {
 			if err := format.Node(&buf, fr.Fset, af); err != nil || buf.String() != want[j] {
 				c.Fail(Finding{Sig: "render-depends-on-later-restores", Input: key, What: fmt.Sprintf("file %d of %d restored by one FileRestorer, printed after the others were restored (%v):\n%s\nits own restorer prints:\n%s", j+1, len(afs), err, truncate(buf.String(), 500), truncate(want[j], 500)), Replay: obj{"kind": "none"}})
 				break
+			}
+		}
+	}
+}
+
+// c04Imports: decorations of an import spec and of its alias identifier when import management
+// changes the alias (FileRestorer.Alias) or leaves it alone: every marker is rendered exactly once.
+func c04Imports(c *Ctx) {
+	srcs := []string{
+		"package p\n\nimport f \"fmt\"\n\nvar _ = f.Sprint()\n",
+		"package p\n\nimport (\n\tf \"fmt\"\n\to \"os\"\n)\n\nvar _ = f.Sprint(o.Args)\n",
+		"package p\n\nimport (\n\t\"fmt\"\n\to \"os\"\n)\n\nvar _ = fmt.Sprint(o.Args)\n",
+	}
+	overrides := []map[string]string{{}, {"fmt": "format"}, {"os": "sys"}, {"fmt": "format", "os": "sys"}, {"fmt": "f"}}
+	for si, src := range srcs {
+		for oi, ov := range overrides {
+			key := fmt.Sprintf("import-decorations|source-%d|override-%d", si, oi)
+			f, err := decorator.NewDecoratorWithImports(token.NewFileSet(), "example.com/p", goast.New()).Parse(src)
+			if err != nil {
+				c.Infra("c04Imports: " + err.Error())
+				return
+			}
+			var want []string
+			k := 0
+			mark := func(d *dst.Decorations, name string) {
+				k++
+				m := fmt.Sprintf("/*I%d.%s*/", k, name)
+				d.Append(m)
+				want = append(want, m)
+			}
+			for _, s := range f.Decls[0].(*dst.GenDecl).Specs {
+				is := s.(*dst.ImportSpec)
+				mark(&is.Decs.Start, "spec.Start")
+				if is.Name != nil {
+					mark(&is.Name.Decs.Start, "alias.Start")
+					mark(&is.Name.Decs.End, "alias.End")
+					mark(&is.Decs.Name, "spec.Name")
+				}
+				mark(&is.Path.Decs.Start, "path.Start")
+				mark(&is.Path.Decs.End, "path.End")
+				mark(&is.Decs.End, "spec.End")
+			}
+			fr := decorator.NewRestorerWithImports("example.com/p", guess.New()).FileRestorer()
+			for p, a := range ov {
+				fr.Alias[p] = a
+			}
+			var buf bytes.Buffer
+			var perr error
+			msg := guard(func() { perr = fr.Fprint(&buf, f) })
+			c.Eval(key, len(ov) > 0)
+			if msg != "" || perr != nil {
+				c.Fail(Finding{Sig: "render-panic", Input: key, What: fmt.Sprintf("import-managed print with alias overrides %v: %s %v", ov, msg, perr), Replay: obj{"kind": "none"}})
+				continue
+			}
+			out := buf.String()
+			for _, m := range want {
+				if n := strings.Count(out, m); n != 1 {
+					c.Fail(Finding{Sig: "import-decoration-not-rendered-once", Input: key, What: fmt.Sprintf("alias overrides %v: %s is rendered %d times:\n%s", ov, m, n, out), Replay: obj{"kind": "none"}})
+					break
+				}
 			}
 		}
 	}
